@@ -305,7 +305,11 @@ func init() {
 							sig := v.Inv + "|" + v.Class
 							if _, dup := viol[sig]; !dup {
 								hb, _ := json.Marshal(seq)
-								viol[sig] = check.Violation{Scenario: j.Name, Oracle: v.Inv, Detail: v.Class, Info: fmt.Sprintf("after inserting %v: %s", seq, v.Info), Replay: &check.Replay{History: hb}}
+								tags := []string{"C20"}
+								if v.Inv == "panic" {
+									tags = append(tags, "C08") // a sample sequence any client can send panics the handler
+								}
+								viol[sig] = check.Violation{Scenario: j.Name, Oracle: v.Inv, Detail: v.Class, Info: fmt.Sprintf("after inserting %v: %s", seq, v.Info), Replay: &check.Replay{History: hb}, Tags: tags}
 							}
 						}
 						continue // violating states are reported, not expanded
